@@ -826,9 +826,11 @@ def work_ntag(job, acc):
                     elif o[1] is not want:
                         acc.fail('%s|authenticate|%s|returned-%r-expected-%r'
                                  % (fam, ptype, o[1], want), d, k)
-                    elif tag.is_authenticated is not want or \
-                            (model.state == 'AUTHENTICATED') != (
-                                key[0:4] == n_key(poct)[0:4]):
+                    elif tag.is_authenticated is not want or (
+                            want and model.state != 'AUTHENTICATED'):
+                        # (what the reader does with a tag that refused the
+                        # password - e.g. activate it again - is its own
+                        # business: only a claimed success must be real)
                         acc.fail('%s|is_authenticated|inconsistent' % fam, d,
                                  k)
                     else:
